@@ -92,6 +92,10 @@ def gen(rnd):
     return {'spec': spec, 'final': final, 'touched': names, 'kind': kind, 'flag': flag, 'where': where}
 
 
+class NotApplicable(Exception):
+    pass
+
+
 def run(case, work):
     root = os.path.join(work, 'r')
     shutil.rmtree(root, ignore_errors=True)
@@ -116,6 +120,90 @@ def run(case, work):
         case['raised'] = None
     except BaseException as e:  # noqa
         case['raised'] = type(e).__name__
+    # the same pipeline put together in other ways: the outcome must not depend on how the layer objects were combined
+    from connectome import Chain
+    forms = {}
+
+    def attempt(name, make):
+        try:
+            dir(make())
+            forms[name] = None
+        except NotApplicable:
+            pass
+        except BaseException as e:  # noqa
+            forms[name] = type(e).__name__
+
+    def purified(spec):
+        import copy
+        sp = copy.deepcopy(spec)
+        for d in sp:
+            d.pop('impure', None) if d['t'] == 'transform' else None
+            if d['t'] == 'merge':
+                d['parts'] = [purified(p_) for p_ in d['parts']]
+            if d['t'] == 'chain':
+                d['layers'] = purified(d['layers'])
+        return sp
+
+    spec, final = case['spec'], case['final']
+    attempt('prefix>>final', lambda: layer >> P.build_layer(final, [root]))
+
+    def has_impure(d):
+        if d['t'] == 'merge':
+            return any(has_impure(x) for p_ in d['parts'] for x in p_)
+        if d['t'] == 'chain':
+            return any(has_impure(x) for x in d['layers'])
+        return bool(d.get('impure')) and d['t'] == 'transform'
+    # the head holds every impure function, the tail (possibly empty) and the final layer are pure on their own
+    k = max([i + 1 for i, d in enumerate(spec) if has_impure(d)] + [1])
+    inherit_all = {'t': 'transform', 'fields': {}, 'params': {}, 'inherit': True}
+
+    def parts():
+        head, _ = P.build(spec[:k], [root])
+        tail = [P.build_layer(d, [root]) for d in spec[k:]]
+        if not tail or not hasattr(tail[0], '_compile'):
+            tail = [P.build_layer(inherit_all, [root])] + tail
+        return head, tail, P.build_layer(final, [root])
+
+    def nested():
+        head, tail, fin = parts()
+        try:
+            block = Chain(Chain(*tail, fin))
+        except BaseException:  # noqa   (a dataset-wide layer cannot be put into a block without its dataset)
+            raise NotApplicable()
+        return Chain(head, block)
+    attempt('head >> Chain(Chain(tail, final))', nested)
+
+    def block_then_attach():
+        head, tail, fin = parts()
+        try:
+            outer = Chain(Chain(*tail, fin), P.build_layer(inherit_all, [root]))
+        except BaseException:  # noqa
+            raise NotApplicable()
+        return head >> outer
+    attempt('head >> Chain(Chain(tail, final), inherit-all)', block_then_attach)
+
+    def reuse_after_pure():
+        # the same tail and final layer OBJECTS are first connected to the purified head, then to the real one
+        pure_head, _ = P.build(purified(spec[:k]), [root])
+        head, tail, fin = parts()
+        try:
+            dir(Chain(pure_head, *tail, fin))
+        except BaseException:  # noqa
+            pass
+        return Chain(head, *tail, fin)
+    attempt('tail and final layer objects used before over a pure head', reuse_after_pure)
+
+    def reuse_block():
+        pure_head, _ = P.build(purified(spec[:k]), [root])
+        head, tail, fin = parts()
+        try:
+            block = Chain(*tail, fin)
+            dir(pure_head >> block)
+        except BaseException:  # noqa
+            raise NotApplicable()
+        return head >> block
+    attempt('the block Chain(tail, final) used before over a pure head', reuse_block)
+    case['forms'] = forms
     shutil.rmtree(root, ignore_errors=True)
     return case
 
